@@ -9,7 +9,7 @@ import sys
 import io
 import contextlib
 
-from common import REPO
+from common import REPO, exc_name
 
 sys.dont_write_bytecode = True
 if REPO not in sys.path:
@@ -276,4 +276,4 @@ def call_mc(logic, k, formula, F=None):
     except BaseException as ex:      # noqa: internal errors are observations, not crashes
         if isinstance(ex, (KeyboardInterrupt, SystemExit, MemoryError)) or type(ex).__name__ == 'CaseTimeout':
             raise                        # the harness's own per-case time limit is never an observation of the library
-        return ('exc', type(ex).__name__, str(ex)[:200])
+        return ('exc', exc_name(ex), str(ex)[:200])
